@@ -34,6 +34,9 @@ pub enum TypeError {
 
     #[error("Expected a duration for the timeslice (e.g. 1h)")]
     ExpectedDuration,
+
+    #[error("The separator for split must not be empty")]
+    EmptySeparator,
 }
 
 pub trait TypeCheck<O> {
@@ -300,6 +303,11 @@ impl TypeCheck<Box<dyn operator::OperatorBuilder + Send + Sync>>
             },
             lang::InlineOperator::Limit { count: None } => {
                 Ok(Box::new(limit::LimitDef::new(DEFAULT_LIMIT)))
+            }
+            lang::InlineOperator::Split { separator, .. } if separator.is_empty() => {
+                // `str::splitn(2, "")` yields ("", whole input): split_with_delimiters would
+                // never consume anything and loop for ever.
+                Err(TypeError::EmptySeparator)
             }
             lang::InlineOperator::Split {
                 separator,
